@@ -2,4 +2,4 @@ CONSTANTS
   MaxOps = 5
 INIT Init
 NEXT Next
-INVARIANTS TypeOK GateHolds OncePerToken ErrorStops StoppedIsFinal RegRefusedWhenStopped Emit
+INVARIANTS TypeOK GateHolds OncePerToken ErrorStops StoppedIsFinal RegRefusedWhenStopped
